@@ -611,6 +611,12 @@ func (wf *Workflow[I, O]) compile(ctx context.Context, options *graphCompileOpti
 				},
 			}
 
+			// the static values reach the node as map[string]any like mapped fields do: also a node
+			// without any field mapping needs the converter to its input type (and "no input" as a map)
+			if _, ok := wf.g.fieldMappingRecords[n.key]; !ok {
+				wf.g.fieldMappingRecords[n.key] = nil
+			}
+
 			if _, ok := wf.g.handlerPreNode[n.key]; !ok {
 				wf.g.handlerPreNode[n.key] = []handlerPair{pair}
 			} else {
